@@ -15,7 +15,7 @@ def arg_expr(ty, k, enums, masks, implicit=False):
     if t == "Option<spirv::Word>":
         return "Some(%du32)" % (100 + k)
     if t == "InsertPoint":
-        return "rspirv::dr::InsertPoint::End"
+        return "ip()"
     if t == "u8":
         return "%du8" % (1 + k)
     if t == "u64":
@@ -105,6 +105,18 @@ fn containers(m: &rspirv::dr::Module) -> Vec<(String, Vec<&rspirv::dr::Instructi
         }
     }
     v
+}
+
+static IP: std::sync::atomic::AtomicU32 = std::sync::atomic::AtomicU32::new(0);
+/// Insertion point used for every `InsertPoint` argument of the next native call: 0 End, 1 Begin, 2 FromBegin(0), 3 FromEnd(0).
+pub fn set_ip(n: u32) { IP.store(n, std::sync::atomic::Ordering::SeqCst); }
+fn ip() -> rspirv::dr::InsertPoint {
+    match IP.load(std::sync::atomic::Ordering::SeqCst) {
+        1 => rspirv::dr::InsertPoint::Begin,
+        2 => rspirv::dr::InsertPoint::FromBegin(0),
+        3 => rspirv::dr::InsertPoint::FromEnd(0),
+        _ => rspirv::dr::InsertPoint::End,
+    }
 }
 
 fn setup(state: u32) -> rspirv::dr::Builder {
